@@ -25,5 +25,6 @@ def main (args : List String) : IO UInt32 := do
   | ["compare"] => Proto.loop stdin stdout DriverCompare.step DriverCompare.init; return 0
   | ["ani"] => Proto.loop stdin stdout DriverAni.step (); return 0
   | ["gather"] => Proto.loop stdin stdout DriverGather.step DriverGather.init; return 0
+  | ["c20r"] => Proto.loop stdin stdout DriverC20r.step (); return 0
   | ["own"] => Proto.loop stdin stdout DriverOwn.stepLine Obj.World.empty; return 0
   | _ => IO.eprintln "usage: Main <module>"; return 2
